@@ -81,6 +81,12 @@ def gen(rng, tier, index):
             for text in grow[: rng.randint(1, 3)]:
                 ops.append(["line", f"{rng.choice([1, 2, 3])};255;3;0;0;{rng.randint(1, 99)}"])
                 ops.append(["line_at_save", text])
+            if cfg["version"] in ("2.0", "2.1", "2.2") and rng.random() < 0.6:
+                # ... also by a handler that does not announce anything: the wake-up of a smart-sleep node that has
+                # presented one more child since its last wake-up grows the node's desired-state table
+                wake = "90;255;3;0;32;500" if cfg["version"] == "2.2" else "90;255;3;0;22;9"
+                ops += [["line", f"90;255;0;0;17;{cfg['version']}"], ["line", "90;1;0;0;6;a"], ["line", "90;2;0;0;6;b"], ["line", wake],
+                        ["line", "90;3;0;0;6;one more"], ["line_at_save", wake]]
             ops.append(["advance", rng.choice([0.5, 3.0, 9.5, 10.5])])
         if cfg["flavour"] not in ("mqtt", "amqtt") and rng.random() < 0.35:
             # ... while a line arrives that is handled during that save
